@@ -97,6 +97,42 @@ def case_key(key, R, D, K, L, M, modes, exact, sub):
     return Case(label, fn)
 
 
+def case_history(R, D, sub):
+    """integrals are functions of the measure's CURRENT parameters: integrate, change the measure in place (normalize(),
+    density update), integrate again; and integrate after products built on an already integrated measure"""
+    label = f"history/R{R}/D{D}/{sub}"
+    def fn(m):
+        rng = gen.rng_path(m.seed, label)
+        fails = []
+        params = dict(R=R, D=D, history=True)
+        u = mk_measure(m, rng, R, D)
+        S = np.linalg.inv(u.Lambda); mu = np.einsum("rij,rj->ri", S, u.nu)
+        lm = np.array([log_gauss_integral(u.Lambda[r], u.nu[r], u.ln_beta[r]) for r in range(R)])
+        I = (np.eye(D), np.zeros(D))
+        def check(reg, mass, mu_, S_, when):
+            for key, ref in (("1", mass), ("x", mass[:, None] * mu_), ("xx'", mass[:, None, None] * (S_ + np.einsum("ri,rj->rij", mu_, mu_)))):
+                r_ = m.integrate(reg, key)
+                if m.regs.get(r_) is None:
+                    fails.append(failure(PROPERTY, f"integrate:{key}:{when}", f"raised: {m.impl[-1][1:]}", params=params)); continue
+                fail_if(fails, PROPERTY, f"integrate:{key}:{when}", "integral != mass x exact Gaussian moment of the CURRENT measure", np.asarray(m.regs[r_]), ref, params=params)
+            A = rng.standard_normal((2, D)); a = rng.standard_normal(2)
+            r_ = m.integrate(reg, "quad_inner", dims=(2,), forms=[(A, a), (A, a)])
+            ref = np.stack([mass[r] * np.einsum("uu->", E_forms([(A, a), (A, a)], mu_[r], S_[r])) for r in range(R)])
+            if m.regs.get(r_) is not None:
+                fail_if(fails, PROPERTY, f"integrate:quad_inner:{when}", "integral != mass x exact Gaussian moment of the CURRENT measure", np.asarray(m.regs[r_]), ref, params=params)
+        check(u.reg, np.exp(lm), mu, S, "fresh")
+        m.query("normalize", u.reg)                      # in place: same Gaussian, mass one
+        check(u.reg, np.ones(R), mu, S, "after-normalize")
+        f = mk_factor(m, rng, "general", 1, D)           # product on top of the integrated, normalised measure
+        h = m.hadamard(u.reg, f.reg, bool(rng.integers(0, 2)))
+        L2 = u.Lambda + f.Lambda; nu2 = u.nu + f.nu; lb2 = (u.ln_beta - lm) + f.ln_beta
+        S2 = np.linalg.inv(L2); mu2 = np.einsum("rij,rj->ri", S2, nu2)
+        mass2 = np.exp(np.array([log_gauss_integral(L2[r], nu2[r], lb2[r]) for r in range(R)]))
+        check(h, mass2, mu2, S2, "after-product")
+        return fails
+    return Case(label, fn)
+
+
 ALL_KEYS = ["1", "x", "xx'", "Ax+a", "quad_inner", "quad_outer", "cubic_inner", "cubic_outer", "xAxx", "xbxx",
             "quartic_inner", "quartic_outer"]
 
@@ -132,4 +168,6 @@ def cases(seed, tier):
                     if exact and (mi in (2, 4, 6)) and tier == "quick":
                         continue
                     out.append(case_key(key, R, D, K, L, M, modes, exact, f"s{si}m{mi}"))
+    for i, (R, D) in enumerate([(2, 2), (1, 3)] + ([(3, 1), (2, 4)] if tier != "quick" else [])):
+        out.append(case_history(R, D, i))
     return seeded(out, seed)
